@@ -103,11 +103,13 @@ Print Assumptions C16_compile_correct_straightline.
 (* Fragment psfrag: a top-level sequence of declarations `x := e` and of
    statements built from assignments `x = e` to globals, `if c … {else if c …}
    [else …] end` chains, `while c … end`, `for range [start] stop [step] … end`
-   (step ranges WITHOUT a loop variable; a zero step is a run-time error, so
-   the semantics is undefined there) and `break` (inside a loop only:
-   nb_stmt), arbitrarily nested, all expressions in efrag (_partial: no loop
-   variables, no ranges over strings/arrays/maps, no block-local declarations,
-   no arrays/maps).  The boolean of a result of exec_l says that a break is
+   (step ranges without a loop variable anywhere, and — at TOP LEVEL only —
+   `for i := range …` WITH a loop variable, which the compiler makes a global:
+   the semantics assigns none to i, then the index in every round; a zero step
+   is a run-time error, so the semantics is undefined there) and `break`
+   (inside a loop only: nb_stmt), arbitrarily nested, all expressions in efrag
+   (_partial: no loop variables inside blocks, no ranges over strings / arrays /
+   maps, no block-local declarations, no arrays/maps).  The boolean of a result of exec_l says that a break is
    under way; the innermost loop ends it.  The VM keeps the state of a range
    loop (index, step, stop) on the operand stack: the simulation carries the
    stack `base` below the statement, and OpDrop removes the state at the exit
@@ -380,6 +382,31 @@ Example C16_ex_for_defined :
   match compile ex_for with
   | COk st => match vm_run 4000 (program_of (bytecode_of st)) (vm_init (program_of (bytecode_of st))) with
               | FHalted s => nth_error (globals s) 1 = Some (VNum (float_of_Z 24)) /\ ostack s = []
+              | _ => False
+              end
+  | CErr _ => False
+  end.
+Proof. vm_compute. repeat split; try reflexivity. discriminate. Qed.
+
+(* t := 0
+   for i := range 1 6: t = t + i
+     if i == 4: break end end              -- t = 10, i = 4 (a global) *)
+Definition ex_forlv : slist :=
+  let num k := ENum (float_of_Z k) in
+  SCons (SDecl (s_ "t") (num 0%Z))
+ (SCons (SForStep (Some (s_ "i")) (OSome (num 1%Z)) (num 6%Z) ONoneE
+          (SCons (SAssign (EVar (s_ "t")) (EBin BPlus TNum TNum (EVar (s_ "t")) (EVar (s_ "i"))))
+          (SCons (SIf (EBin BEq TNum TNum (EVar (s_ "i")) (num 4%Z)) (SCons SBreak SNil) CNil NoElse) SNil))) SNil).
+
+Example C16_ex_forlv_defined :
+  psfrag ex_forlv = true /\ (ldepth ex_forlv <= Gen.Opcodes.StackSize)%N /\
+  match exec_l 60 ex_forlv (fun _ => None) with
+  | Some (env, false) => env (s_ "t") = Some (VNum (float_of_Z 10)) /\ env (s_ "i") = Some (VNum (float_of_Z 4))
+  | _ => False
+  end /\
+  match compile ex_forlv with
+  | COk st => match vm_run 4000 (program_of (bytecode_of st)) (vm_init (program_of (bytecode_of st))) with
+              | FHalted s => globals s = [VNum (float_of_Z 10); VNum (float_of_Z 4)] /\ ostack s = []
               | _ => False
               end
   | CErr _ => False
